@@ -28,6 +28,6 @@ Definition entries_found (fps:list fp_row) (expected:list (string * nat)) : bool
   forallb (fun e => match find (fun r => String.eqb (fst (fst (fst r))) (fst e)) fps with
                     | Some r => Nat.eqb (List.length (fp_entries r)) (snd e) | None => false end) expected.
 Definition expected_entries : list (string * nat) :=
-  [("ngap_codec", 4); ("nas_codec", 2); ("key_derive", 4); ("nas_cipher", 1); ("nas_mac", 1); ("nas_protect", 2); ("nea2_nia2", 2); ("nea1_nia1", 2)].
+  [("ngap_codec", 4); ("nas_codec", 2); ("key_derive", 4); ("milenage", 4); ("nas_cipher", 1); ("nas_mac", 1); ("nas_protect", 2); ("nea2_nia2", 2); ("nea1_nia1", 2)].
 Definition footprints_ok (fps:list fp_row) : bool :=
   no_unguarded_writes fps && guarded_consistently fps && entries_found fps expected_entries.
